@@ -58,6 +58,10 @@ def private_engine(ck):
     ck.coqdir = dst
 
 
+ROUTING_RELATION = ("request_body payload mapping (Routing.v) = the request body goa finalized (nothing / whole payload / attribute names in order "
+                    "+ required names in order), and elem_required / elem_content = IsRequired and type kind of every mapped header, cookie and parameter")
+
+
 def sample_cases(lines, cap, cases=None):
     """Quick tier: at most about `cap` cases go through Coq: every case of the witness and
     sole-validation designs, every k-th of the others."""
@@ -96,6 +100,7 @@ def run_prop(pid, tier, replay=None):
         ck.failure(f["signature"], f["what"], {"input": f["input"]})
 
     mism, evaluated, total = None, 0, 0
+    rmism, rtotal = None, 0
     if ck.coq_ok:
         fname, typ, fn = cfg["cases"]
         hdr = open(os.path.join(ck.work, "cases_header.v")).read()
@@ -105,6 +110,12 @@ def run_prop(pid, tier, replay=None):
             lines = sample_cases(lines, 2500, res.get("cases"))
         evaluated = len(lines)
         mism = ck.coq_eval_cases(lines, hdr, typ, fn, tag=pid.lower())
+        # payload routing (Routing.v: httpRequestBody / initAttr): one case per endpoint, never sampled
+        rpath = os.path.join(ck.work, "cases_routing.txt")
+        rlines = [l for l in open(rpath).read().splitlines() if l.strip()] if os.path.exists(rpath) else []
+        rtotal = len(rlines)
+        if ck.coq_ok and mism is not None:
+            rmism = ck.coq_eval_cases(rlines, hdr, "rcase_t", "routing_mismatches", tag=pid.lower() + "r")
     if not ck.coq_ok:
         if not ck.violations:
             ck.unproved("the Validation development no longer checks (a template operator, length function, nil guard or "
@@ -118,10 +129,21 @@ def run_prop(pid, tier, replay=None):
                         % (cfg["relation"], len(mism), evaluated),
                         {"broken": "correspondence " + cfg["relation"], "first_disagreeing_case": first,
                          "mismatching_case_indexes": mism[:50]})
+    if ck.coq_ok and rmism and not ck.violations:
+        desc = []
+        try:
+            desc = open(os.path.join(ck.work, "cases_routing_desc.txt")).read().splitlines()
+        except OSError:
+            pass
+        ck.unproved("correspondence %s broke on %d of %d endpoint(s); the property's own laws held on every case explored"
+                    % (ROUTING_RELATION, len(rmism), rtotal),
+                    {"broken": "correspondence " + ROUTING_RELATION,
+                     "first_disagreeing_endpoints": [desc[i] if i < len(desc) else i for i in rmism[:10]]})
     cov = {"evaluations": res["evaluations"], "distinct_nontrivial": res["distinct_nontrivial"], "rule": res["rule"],
            "samples": res["samples"], "distribution": res["distribution"],
            "model_cases_total": total, "model_cases_evaluated": evaluated,
            "model_mismatches": (len(mism) if mism is not None else None) if ck.coq_ok else None,
+           "routing_cases_evaluated": rtotal, "routing_mismatches": (len(rmism) if rmism is not None else None) if ck.coq_ok else None,
            "exhaustive": False}
     extra = {k: v for k, v in res.get("extra", {}).items() if not k.startswith("excl:")}
     if extra:
@@ -134,6 +156,9 @@ def run_prop(pid, tier, replay=None):
         "alias chains are merged by the harness with expr.ValidationExpr.Merge",
         "theorems are stated for every n (depth to which user types are followed); both sides of every equation use the same n",
         "decoding (encoding/json, strconv) is an oracle: a value that does not decode is outside the model",
+        "payload routing (Routing.v) is hand-written from expr/http_body_types.go (httpRequestBody, removeAttribute(s), defaultRequestHeaderAttributes), "
+        "MappedAttributeExpr.Delete, Object.Delete, ValidationExpr.RemoveRequired and initAttr; tied on every endpoint of every compiled design "
+        "(coverage.routing_cases_evaluated); attribute contents are abstracted to the kind of their type; explicit Body(...) and union payloads are outside it",
     ]
     if pid == "C04":
         assumptions = common + [
